@@ -954,7 +954,7 @@ def run(tier: str) -> CheckResult:
     import schedulers  # noqa: F401  (imported before forking: the package pulls in every solver back-end)
 
     jobs = jobs_M(tier) + jobs_R(tier) + jobs_T(tier)  # longest first
-    for part in parallel(_dispatch, jobs, procs=10):
+    for part in parallel(_dispatch, jobs, procs=16 if tier == "quick" else 10):
         res.merge(part)
     _aggregate(res.extra)
     res.extra["clauses"] = PROPERTY_CLAUSES + ["C15.batch_eq"]
